@@ -15,26 +15,21 @@ def guard_reasons(p, evs, snap_gen_leaf):
     reasons = set()
     vloads = [e.term for e in evs if e.kind == 'vload']
     gloads = [e.term for e in evs if e.kind == 'gload']
+    for a, b in common.known_equal(p.conds):
+        for x, y in ((a, b), (b, a)):
+            if x in vloads and psi.is_int_const(y) and y[1] == 0:
+                reasons.add('version==0')
+            if x in gloads and psi.is_int_const(y) and y[1] == 0:
+                reasons.add('generation==0')
+            if x in gloads and y in snap_gen_leaf:
+                reasons.add('generation==cached')
+    # a switch on the loaded value itself (`match version { 0 => .. }`)
     for term, op, val, _ in p.conds:
-        truth = None
-        if op == '!=' and set(val) == {0}:
-            truth = True
-        elif op == '==' and val in (0, 1):
-            truth = bool(val)
-        if truth is None or term[0] != 't':
-            continue
-        if term[1] in ('Eq', 'eq', 'Ne', 'ne'):
-            a, b = term[2]
-            if term[1] in ('Ne', 'ne'):
-                truth = not truth
-            if truth:
-                for x, y in ((a, b), (b, a)):
-                    if x in vloads and psi.is_int_const(y) and y[1] == 0:
-                        reasons.add('version==0')
-                    if x in gloads and psi.is_int_const(y) and y[1] == 0:
-                        reasons.add('generation==0')
-                    if x in gloads and y == snap_gen_leaf:
-                        reasons.add('generation==cached')
+        if op == '==' and val == 0:
+            if term in vloads:
+                reasons.add('version==0')
+            if term in gloads:
+                reasons.add('generation==0')
     # odd generation: the atoms on the first generation load only allow odd values
     for g in gloads[:1]:
         par, zero, n = parity_of(g, g, p.conds)
@@ -56,7 +51,17 @@ def run_rules(ctx, chk):
     r = ReaderModel(fb, chk, 'C03.G1')
     if not r.ok:
         return
-    snap_gen_leaf = psi.T('field', psi.T('deref', ('sym', 'self')), 'snapshot_gen')
+    # the cached-generation field: whatever field of self the acceptance path assigns next to the record copy
+    snap_gen_leaf = set()
+    for p in r.paths:
+        stores = r.self_stores(p)
+        if p.kind == 'return' and p.value[0] == 'agg' and p.value[2] == 'Ok' and \
+                any(v[0] == 't' and v[1] == 'call' and 'read' in v[2][0] for v in stores.values()):
+            for k, v in stores.items():
+                if not (v[0] == 't' and v[1] == 'call' and 'read' in v[2][0]):
+                    snap_gen_leaf.add(psi.T('field', psi.T('deref', ('sym', 'self')), k))
+    if not snap_gen_leaf:
+        chk.missing('C03.G2', 'acceptance path of snapshot() that caches a generation with the record')
     reasons_seen = set()
     n_accept = 0
     for p, evs in zip(r.paths, r.evs):
@@ -71,11 +76,7 @@ def run_rules(ctx, chk):
                 # G2 pairing
                 for gf in gen_fields:
                     v = stores[gf]
-                    eq = False
-                    for term, op, val, _ in p.conds:
-                        if term[0] == 't' and term[1] in ('Eq', 'eq') and v in term[2] and all(x in gloads for x in term[2]) and \
-                                ((op == '!=' and set(val) == {0}) or (op == '==' and val == 1)):
-                            eq = True
+                    eq = any(v in (a, b) and a in gloads and b in gloads for a, b in common.known_equal(p.conds))
                     chk.ob('C03.G2', 'accept:cached-generation-is-the-compared-one', eq, p.where[2],
                            'self.%s <- %s, which is one of the two generations compared equal: %s' % (gf, fmt(v)[:70], eq))
                 chk.ob('C03.G2', 'accept:generation-cached-with-record', bool(gen_fields), p.where[2],
@@ -149,6 +150,21 @@ def run_rules(ctx, chk):
             if o['rule'] in ('C11.P1', 'C11.P2', 'C11.P3') and o['nontrivial']:
                 chk.ob('C03.G5', '%s:%s' % (o['rule'], o['key']), o['ok'], o['where'],
                        'a completed publication must leave an even, non-zero, changed generation or readers keep serving their cache: ' + o['detail'])
+        # ... and a restarted daemon must continue the generation sequence of a segment readers may still have mapped:
+        # re-creating a usable segment (including one left mid-update) restarts it at 0, so a later publication can
+        # coincide with a generation a reader has cached (C04.T1)
+        from . import C04
+        sub = type(chk)('C03', LEVEL, chk.tier)
+        sub._nested = True
+        sub._is_control = True
+        C04.run(ctx, sub)
+        n6 = 0
+        for o in sub.obs:
+            if o['rule'] == 'C04.T1' and o['nontrivial']:
+                n6 += 1
+                chk.ob('C03.G6', '%s:%s' % (o['rule'], o['key']), o['ok'], o['where'],
+                       'a restarted daemon keeps the generation sequence of a usable segment: ' + o['detail'])
+        chk.floor('C03.G6', 'restart obligations', n6, 2)
     for need in ('version==0', 'generation==0', 'generation==cached', 'generation odd'):
         chk.ob('C03.G1', 'reason-present:%s' % need, need in reasons_seen, r.body.where(0),
                'an early exit for "%s" %s' % (need, 'exists' if need in reasons_seen else 'is MISSING (the reader would wait on / mis-handle this state)'),
